@@ -306,7 +306,17 @@ def oracle(case):
             while k >= 0 and not (log[k][0] == 'op-call' and log[k][1] == x[1]
                                   and log[k][2] == 'pause'):
                 k -= 1
-            if any(y[0] in ('op-call', 'op-return') and y[2] == 'unpause' for y in log[k:i]):
+            # (any unpause() whose call..return interval intersects this pause()'s interval,
+            # also one that was called before pause() and returns after it)
+            overl = False
+            for a, y in enumerate(log[:i]):
+                if y[0] == 'op-call' and y[2] == 'unpause':
+                    b = next((q for q in range(a + 1, len(log)) if log[q][0] == 'op-return'
+                              and log[q][1] == y[1] and log[q][2] == 'unpause'), len(log))
+                    if b > k:
+                        overl = True
+                        break
+            if overl:
                 i += 1
                 continue
             cycles = 0
